@@ -12,6 +12,7 @@
 -/
 import NetflowModel.Lemmas.A2Export
 import NetflowModel.Props.C02
+import NetflowModel.Lemmas.G1Arms
 namespace Netflow.Props
 open Netflow Preds
 
@@ -202,5 +203,12 @@ example : CacheValid (parseBytes c01Cfg {} c01Ip).1 ∧
 
 /-- an all-zero-length template is NOT inserted (the guard that `CacheValid` records) -/
 example : (parseBytes c01Cfg {} [0,10, 0,28, 0,0,0,1, 0,0,0,2, 0,0,0,3,   0,2, 0,12, 1,0, 0,1, 0,1, 0,0]).1 = {} := by decide
+
+/-- **C01.G** (regenerated on every run) the only panicking encoders are the two byteorder 24-bit writers, exactly as the
+    arms of `DataNumber::to_be_bytes` read from the source now say; every `From<DataNumber> for usize` arm is a plain cast. -/
+theorem C01_number_export_arms_generated (d : DataNumber) :
+    d.toBE = dnToBEBy Generated.dnExportArms d := G1.dnToBE_eq_generated d
+
+theorem C01_usize_casts_generated : ∀ a : DnArm, a ∈ Generated.dnUsizeCasts := G1.dnUsize_all_casts
 
 end Netflow.Props
